@@ -15,7 +15,7 @@ def load_known():
 
 def match_known(known, pid, symbol, kind, desc):
     for f in known.get("findings", []):
-        if f.get("property") != pid:
+        if f.get("property") != pid and pid not in f.get("also_properties", []):
             continue
         m = f.get("match", {})
         if "symbol" in m and m["symbol"] != symbol:
